@@ -49,6 +49,7 @@ fn main() {
         ("replay", "template") => template::replay(rest),
         ("record", "template") => template::record(rest),
         ("replay", "cli") => proc::replay(rest),
+        ("replay", "input") => proc::replay_input(rest),
         ("record", "cli") => proc::record(rest),
         ("measure", "cli") => proc::measure(rest),
         ("flags", "cli") => proc::flags(rest),
